@@ -55,6 +55,9 @@ def point(kind):
         raise SimKill()
     p.prim_count = getattr(p, 'prim_count', 0) + 1
     if ARMED['proc'] is p:
+        tags = p.sim.cfg.get('kill_tags')
+        if tags is not None and kind.split('.')[0] not in tags:
+            return          # this run kills only inside the listed kinds of storage operations
         if ARMED['count'] == ARMED['k']:
             ARMED['fired'] = kind
             p.killed_at = kind
@@ -209,6 +212,11 @@ def _tag_for(path, mode):
 def _open(path, mode='r', *a, **kw):
     tag = _tag_for(path, mode)
     if tag is None:
+        if isinstance(path, str) and ('w' in mode or 'a' in mode or '+' in mode):
+            # a file written in place (not a tmp file that is renamed later): from now on the oracle looks after every step
+            p = cur_proc()
+            if p is not None and p.conf is not None and path == p.conf.fullDumpFile:
+                p.dump_written_in_place = True
         return _REAL_OPEN(path, mode, *a, **kw)
     point(tag + '.open.before')
     f = _REAL_OPEN(path, mode, *a, **kw)
@@ -228,12 +236,29 @@ class _ShutilShim(object):
         return r
 
 
+CHILD_SUFFIX = '.forkchild'
+
+
 def _atomic_replace(a, b):
+    if IN_CHILD:
+        # a snapshot child: its result is parked next to the dump file; the harness moves it over the dump file at the
+        # virtual instant at which this child is deemed to finish (see clustersim._ForkOs)
+        return _REAL_REPLACE(a, b + CHILD_SUFFIX)
     tag = 'incoming' if a.endswith('.1.tmp') else 'dump'
     point(tag + '.rename.before')
     r = _REAL_REPLACE(a, b)
+    touched()
     point(tag + '.rename.after')
     return r
+
+
+def touched():
+    """The dump file of the current process may have changed: the on-disk oracle looks at it after this step.  (It is
+    decoded only when something could have changed it - a stat or open per simulator step makes 16 workers queue up
+    on the directory locks of the scratch file system.)"""
+    p = cur_proc()
+    if p is not None:
+        p.dump_version = getattr(p, 'dump_version', 1) + 1
 
 
 _ORIG_RF_WRITE = J.ResizableFile.write
